@@ -405,6 +405,94 @@ func valueTargetWitness(run *Run) {
 	oneValueTargetCase(run, cons, aa, "attr", "[aws.west, \"x\"]")
 }
 
+// valueTargetFocus: every collection constraint (alone and nested in another) over elements that declare targets
+// themselves, are plain literals or any expressions, under every way an attribute can be addressable, with
+// written values that hold a reference next to a literal.  No random draw.
+type vtSpec struct {
+	cons schema.Constraint
+	aa   *schema.AttributeAddrSchema
+	text string
+}
+
+func valueTargetFocusSpecs() []vtSpec {
+	decl := schema.Reference{Address: &schema.ReferenceAddrSchema{ScopeId: "provider"}}
+	elems := []schema.Constraint{decl, schema.OneOf{decl, schema.LiteralType{Type: cty.String}}, schema.OneOf{schema.LiteralType{Type: cty.String}, decl},
+		schema.LiteralType{Type: cty.String}, schema.AnyExpression{OfType: cty.DynamicPseudoType}, schema.Keyword{Keyword: "kw"}, schema.OneOf{schema.Keyword{Keyword: "kw"}, schema.Keyword{Keyword: "kx"}}}
+	steps := schema.Address{schema.StaticStep{Name: "var"}, schema.AttrNameStep{}}
+	addrs := []*schema.AttributeAddrSchema{nil, {Steps: steps, AsExprType: true}, {Steps: steps, AsReference: true}, {Steps: steps, AsExprType: true, AsReference: true, ScopeId: "variable"}}
+	type wrap struct {
+		mk    func(e schema.Constraint) schema.Constraint
+		texts []string
+	}
+	seqTexts := []string{"[aws.west, \"x\"]", "[\"x\", aws.west, aws.east]", "[kw, kx]", "[]"}
+	mapTexts := []string{"{ k = aws.west, j = \"x\" }", "{ \"q k\" = \"x\", k = aws.west }", "{ k = kw }", "{}"}
+	wraps := []wrap{
+		{func(e schema.Constraint) schema.Constraint { return schema.List{Elem: e} }, seqTexts},
+		{func(e schema.Constraint) schema.Constraint { return schema.Set{Elem: e} }, seqTexts},
+		{func(e schema.Constraint) schema.Constraint { return schema.Tuple{Elems: []schema.Constraint{e, e}} }, seqTexts},
+		{func(e schema.Constraint) schema.Constraint { return schema.Map{Elem: e} }, mapTexts},
+		{func(e schema.Constraint) schema.Constraint {
+			return schema.Object{Attributes: schema.ObjectAttributes{"k": {IsOptional: true, Constraint: e}, "j": {IsOptional: true, Constraint: e}}}
+		}, mapTexts},
+		{func(e schema.Constraint) schema.Constraint { return schema.List{Elem: schema.Set{Elem: e}} }, []string{"[[aws.west, \"x\"], [aws.east]]", "[[kw]]"}},
+		{func(e schema.Constraint) schema.Constraint { return schema.Set{Elem: schema.List{Elem: e}} }, []string{"[[aws.west, \"x\"], [aws.east]]", "[[kw]]"}},
+		{func(e schema.Constraint) schema.Constraint { return schema.Map{Elem: schema.Set{Elem: e}} }, []string{"{ k = [aws.west, \"x\"], j = [aws.east] }"}},
+		{func(e schema.Constraint) schema.Constraint { return schema.Set{Elem: schema.Map{Elem: e}} }, []string{"[{ k = aws.west }, { j = \"x\" }]"}},
+		{func(e schema.Constraint) schema.Constraint {
+			return schema.OneOf{schema.Set{Elem: e}, schema.LiteralType{Type: cty.String}}
+		}, []string{"[aws.west, \"x\"]", "\"s\""}},
+	}
+	var out []vtSpec
+	for _, w := range wraps {
+		for _, e := range elems {
+			for _, aa := range addrs {
+				for _, t := range w.texts {
+					out = append(out, vtSpec{w.mk(e), aa, t})
+				}
+			}
+		}
+	}
+	return out
+}
+
+func valueTargetFocus(run *Run) {
+	for _, sp := range valueTargetFocusSpecs() {
+		oneValueTargetCase(run, sp.cons, sp.aa, "attr", sp.text)
+		run.Count("attrtargets_focus")
+	}
+}
+
+// valueTargetProbeShare: the same family as worlds of their own - the attribute, a reference to what it declares
+// (var.attr), one into its first element and one to what an element may declare; the share of the family whose
+// index is i modulo n.  Every query is asked at every offset of the referencing lines.
+func valueTargetProbeShare(i, n int) []*Scenario {
+	var out []*Scenario
+	if n < 1 {
+		n = 1
+	}
+	for k, sp := range valueTargetFocusSpecs() {
+		if k%n != i%n {
+			continue
+		}
+		src := "attr = " + sp.text + "\nuse = var.attr\nidx = var.attr[0]\nkey = var.attr.k\ndecl = aws.west\n"
+		sch := &schema.BodySchema{Attributes: map[string]*schema.AttributeSchema{
+			"attr": {IsOptional: true, Constraint: sp.cons, Address: sp.aa},
+			"use":  {IsOptional: true, Constraint: schema.AnyExpression{OfType: cty.DynamicPseudoType}},
+			"idx":  {IsOptional: true, Constraint: schema.AnyExpression{OfType: cty.String}},
+			"key":  {IsOptional: true, Constraint: schema.Reference{OfScopeId: "variable"}},
+			"decl": {IsOptional: true, Constraint: schema.OneOf{schema.Reference{OfScopeId: "provider"}, schema.AnyExpression{OfType: cty.DynamicPseudoType}}},
+		}}
+		w := newWorld()
+		pd := w.AddPath("root", sch, map[string]string{"main.tf": src}, genFunctions(nil))
+		s := &Scenario{W: w, Main: pd, File: "main.tf", Src: []byte(src), Kind: "value-target-probe"}
+		for off := len("attr = " + sp.text); off <= len(src); off++ {
+			s.Offsets = append(s.Offsets, off)
+		}
+		out = append(out, s)
+	}
+	return out
+}
+
 func oneValueTargetCase(run *Run, cons schema.Constraint, aa *schema.AttributeAddrSchema, attrName, text string) {
 	for once := true; once; once = false {
 		src := attrName + " = " + text + "\n"
